@@ -482,7 +482,7 @@ def run(ck, facts, tier):
     chainwalk.run(ck, facts, "C04.chain-walk", ["mimium_lang"])
     from ..rules import rewrite
 
-    rewrite.run(ck, facts, "C04.rewrite-complete", belief.rewriting_passes())
+    rewrite.run(ck, facts, "C04.rewrite-complete", belief.rewriting_passes(), eliminated_variants=belief.eliminated_variant_names())
     from . import c03
 
     c03.rule_admission(ck, facts)
